@@ -70,4 +70,16 @@ PROPS["C12"] = dict(driver="consim", budget=dict(quick=60, thorough=1500), chunk
     assumptions=["preemption happens at synchronisation, channel, disk and yield points, not between arbitrary instructions",
                  "progress: a run must finish within 3,000,000 scheduler steps and 6 simulated hours; deadlock is detected exactly (no runnable task, no pending timer)",
                  "porcupine results of Unknown (20 s timeout) are counted, never reported"])
+TXN_RULE = ("one evaluation = one set of 2-3 (txnsim) or 2-12 (consim) multi-statement transaction programs over 2-5 rows with unique "
+            "written values (reads through index and scan paths, read-modify-write on the row read, write skew shapes, range reads and "
+            "writes, inserts/deletes, explicit aborts). txnsim: single driver, statement-granularity interleavings enumerated "
+            "completely when there are at most 40 (quick) / 300 (thorough), sampled without replacement otherwise; consim: one task per "
+            "transaction under the seeded scheduler (sub-statement interleavings). distinct = distinct (interleaving, per-transaction "
+            "outcome) signature; every run is non-trivial")
+for _p in ("C04", "C05"):
+    PROPS[_p] = dict(driver="txnsim+consim", budget=dict(quick=60, thorough=1500), chunk=40, rule=TXN_RULE,
+        technique="deterministic simulation: statement-level interleavings enumerated by a single driver plus sub-statement interleavings under the seeded scheduler; " + ("visibility oracle over read windows (dirty / stale / hidden / own-write)" if _p == "C04" else "item-level direct serialization graph (ww/wr/rw edges from unique values), cycle search, final state vs committed writes in commit order"),
+        assumptions=["rows that newly match a predicate (phantoms) are exempt, as the property says",
+                     "version order of a row = commit-return order of its committed writers (strict 2PL)",
+                     "sub-statement level: a returned version must belong to a transaction whose commit had begun when the read returned and must not have been overwritten by a commit that returned before the read was invoked"])
 
